@@ -12,6 +12,7 @@ class ScriptedSocket:
     One script event per recv/send/sendall call:
       ("d", k)  deliver / accept at most k bytes      ("r", errno)  retryable OSError
       ("f", errno) fatal OSError                       ("t",) socket.timeout
+      ("p", k, errno) sendall: transmit k bytes, then raise OSError(errno); recv/send: plain OSError(errno)
     """
 
     def __init__(self, stream=b"", script=(), timeout=None):
@@ -37,6 +38,8 @@ class ScriptedSocket:
             raise OSError(ev[1], "scripted fatal")
         if ev[0] == "t":
             raise socket.timeout("scripted timeout")
+        if ev[0] == "p":
+            raise OSError(ev[2], "scripted error")
         raise AssertionError(ev)
 
     def recv(self, n, flags=0):
@@ -64,6 +67,8 @@ class ScriptedSocket:
         if ev[0] == "d":
             self.accepted += bytes(data)
             return None
+        if ev[0] == "p":
+            self.accepted += bytes(data[:ev[1]])
         self._raise(ev)
 
     def gettimeout(self):
